@@ -627,7 +627,10 @@ class Executor(object):
                     decos = c.decorators[attr]
                     fn = VFunc(node, c.module, cls=c, qual="%s.%s" % (c.name, attr))
                     if "classmethod" in decos:
-                        return [(st, "ok", VBound(fn, cls_val or VClass(kind, self.repo.find_class(kind)), c))]
+                        bound_cls = cls_val
+                        if bound_cls is None and self_val is not None:
+                            bound_cls = st.get(self_val, "__class__")
+                        return [(st, "ok", VBound(fn, bound_cls or VClass(kind, self.repo.find_class(kind)), c))]
                     if "staticmethod" in decos:
                         return [(st, "ok", fn)]
                     if any(d in ("property", "cached_property") for d in decos) and self_val is not None:
@@ -871,6 +874,8 @@ class Executor(object):
         con = self.contracts.get((ci.module.relpath, ci.name + ".__init__"))
         obj = VObj(ci.name)
         st = st.set(obj, "__class__", cls)
+        if self.is_subkind(ci.name, "BaseException"):
+            st = st.set(obj, "__mro__", self.exc_mro(ci.name))
         outs = [(st, "ok", obj)]
         # __new__ (only its in-repo part: cutter_check ...)
         newf = self.find_method(ci.name, "__new__")
